@@ -100,3 +100,80 @@ V("c08-rw-power-form", "rewrite", "C08", P + "polyhedron.py",
 V("c08-rw-split-statement", "rewrite", "C08", P + "ellipse.py",
   "            scale = np.sqrt(value / self.area)\n            self._rescale(scale)",
   "            ratio = value / self.area\n            scale = np.sqrt(ratio)\n            self._rescale(scale)")
+
+# ------------------------------------------------------------------------------------------ C15
+V("c15-asarray-center", "fault", "C15", P + "sphere.py", "self._centroid = np.array(value)", "self._centroid = np.asarray(value)", rule="CT-1")
+V("c15-store-vertices-asarray", "fault", "C15", P + "polyhedron.py",
+  "self._vertices = np.array(vertices, dtype=np.float64)", "self._vertices = np.asarray(vertices, dtype=np.float64)", rule="CT-1")
+V("c15-faces-no-copy", "fault", "C15", P + "polyhedron.py", "[copy(face) for face in faces]", "[face for face in faces]", rule="CT-1")
+V("c15-normal-inplace", "fault", ["C15", "C16"], P + "polygon.py",
+  "norm_normal = np.array(normal, dtype=np.float64)", "norm_normal = np.asarray(normal, dtype=np.float64)", rule=None)
+V("c15-skip-duplicates", "fault", "C15", P + "polygon.py",
+  "        if len(indices) != vertices.shape[0]:\n            raise ValueError(\"Found duplicate vertices.\")\n", "", rule="CT-2")
+V("c15-simple-only-large", "fault", "C15", P + "polygon.py",
+  "        if test_simple:\n", "        if test_simple and len(vertices) > 4:\n", rule="CT-2")
+V("c15-convex-hull-check-dropped", "fault", "C15", P + "convex_polyhedron.py",
+  "        if not len(hull.vertices) == len(self._vertices):", "        if False:", rule="CT-2")
+V("c15-direct-radius", "fault", "C15", P + "circle.py",
+  "        self.radius = radius\n        self.centroid = center", "        self._radius = radius\n        self.centroid = center", rule="CT-2")
+V("c15-sphero-radius-strict", "fault", "C15", P + "convex_spheropolyhedron.py",
+  "        if value >= 0:\n            self._radius = value", "        if value > 0:\n            self._radius = value", rule="CT-2")
+V("c15-coplanar-runtimeerror", "fault", "C15", P + "polygon.py",
+  'raise ValueError("Not all vertices are coplanar.")', 'raise RuntimeError("Not all vertices are coplanar.")', rule="CT-3")
+V("c15-no-reorder", "fault", "C15", P + "convex_polygon.py",
+  "            self._reorder_verts()\n", "            pass\n", rule="CT-4")
+V("c15-rw-array-copy-form", "rewrite", "C15", P + "sphere.py", "self._centroid = np.array(value)", "self._centroid = np.asarray(value).copy()")
+V("c15-rw-not-eq", "rewrite", "C15", P + "convex_polyhedron.py",
+  "if not len(hull.vertices) == len(self._vertices):", "if len(hull.vertices) != len(self._vertices):")
+
+# ------------------------------------------------------------------------------------------ C16
+V("c16-view-then-inplace", "fault", "C16", P + "convex_polyhedron.py",
+  "        abc = self.vertices[self.simplices]\n        if centered:", "        abc = self.vertices[:]\n        if centered:", rule="Q-1")
+V("c16-getter-caches-state", "fault", "C16", P + "polyhedron.py",
+  "        ds = -self._equations[:, 3]\n", "        self._find_equations()\n        ds = -self._equations[:, 3]\n", rule="Q-1")
+V("c16-is_inside-mutates-arg", "fault", "C16", P + "sphere.py",
+  "        points = np.atleast_2d(points) - self.centroid\n        return np.linalg.norm(points, axis=-1) <= self.radius",
+  "        points = np.atleast_2d(points)\n        points -= self.centroid\n        return np.linalg.norm(points, axis=-1) <= self.radius", rule="Q-3")
+V("c16-hoomd-no-restore", "fault", ["C16", "C19"], P + "sphere.py",
+  "        hoomd_dict = _map_dict_keys(data, key_mapping=_hoomd_dict_mapping)\n\n        self.centroid = old_centroid\n        return hoomd_dict\n",
+  "        hoomd_dict = _map_dict_keys(data, key_mapping=_hoomd_dict_mapping)\n        return hoomd_dict\n", rule=None)
+V("c16-stl-no-deepcopy", "fault", "C16", "coxeter/io.py",
+  "        shape = deepcopy(shape)\n", "        shape = shape\n", rule="Q-4", allow_error=True)
+V("c16-early-return-moved", "fault", ["C16", "C19"], P + "polyhedron.py",
+  "        hoomd_dict[\"sweep_radius\"] = 0.0\n\n        self.centroid = old_centroid\n",
+  "        hoomd_dict[\"sweep_radius\"] = 0.0\n        if len(self.faces) > 100:\n            return hoomd_dict\n\n        self.centroid = old_centroid\n", rule=None)
+V("c16-rw-copy-saved", "rewrite", ["C16", "C19"], P + "sphere.py",
+  "        old_centroid = self.centroid\n        self.centroid = np.array([0, 0, 0])\n        data = self.to_json([\"diameter\"",
+  "        old_centroid = np.array(self.centroid)\n        self.centroid = np.array([0, 0, 0])\n        data = self.to_json([\"diameter\"")
+V("c16-rw-center-alias", "rewrite", ["C16", "C19"], P + "ellipsoid.py",
+  "        old_centroid = self.centroid\n        self.centroid = np.array([0, 0, 0])", "        old_centroid = self.center\n        self.center = np.array([0, 0, 0])")
+
+# ------------------------------------------------------------------------------------------ C19
+V("c19-gsd-swap-keys", "fault", "C19", P + "ellipsoid.py",
+  'return {"type": "Ellipsoid", "a": self.a, "b": self.b, "c": self.c}', 'return {"type": "Ellipsoid", "a": self.a, "b": self.c, "c": self.b}', rule="GSD-1")
+V("c19-gsd-radius-not-diameter", "fault", "C19", P + "sphere.py",
+  'return {"type": "Sphere", "diameter": 2 * self.radius}', 'return {"type": "Sphere", "diameter": self.radius}', rule="GSD-1")
+V("c19-gsd-reader-wrong-class", "fault", "C19", "coxeter/shape_getters.py",
+  '            return ConvexSpheropolyhedron(params["vertices"], params["rounding_radius"])', '            return ConvexPolyhedron(params["vertices"])', rule="GSD-1")
+V("c19-gsd-unknown-type-none", "fault", "C19", "coxeter/shape_getters.py",
+  '    else:\n        raise ValueError("Unsupported shape type.")', '    else:\n        return None', rule="GSD-2")
+V("c19-gsd-missing-type-keyerror", "fault", "C19", "coxeter/shape_getters.py",
+  '    if "type" not in params:\n        raise ValueError(', '    if "type" not in params:\n        raise KeyError(', rule="GSD-2")
+V("c19-gsd-writer-type-typo", "fault", "C19", P + "convex_spheropolygon.py", '"type": "Polygon",', '"type": "Polygons",', rule="GSD-1")
+V("c19-repr-wrong-attr", "fault", "C19", P + "ellipse.py", "f\"coxeter.shapes.Ellipse(a={self.a}, b={self.b}, \"", "f\"coxeter.shapes.Ellipse(a={self.a}, b={self.a}, \"", rule="REPR-1")
+V("c19-repr-array-faces", "fault", "C19", P + "polyhedron.py",
+  "f\"faces={[np.asarray(face).tolist() for face in self.faces]})\"", "f\"faces={self.faces})\"", rule="REPR-2")
+V("c19-repr-missing-radius", "fault", "C19", P + "convex_spheropolyhedron.py",
+  'f"coxeter.shapes.ConvexSpheropolyhedron(vertices={self.vertices.tolist()}, "\n            f"radius={self.radius})"',
+  'f"coxeter.shapes.ConvexSpheropolyhedron(vertices={self.vertices.tolist()})"', rule="REPR-1")
+V("c19-json-default", "fault", "C19", P + "base_classes.py", "export.update({attribute: getattr(self, attribute)})", "export.update({attribute: getattr(self, attribute, None)})", rule="JSON-1")
+V("c19-hoomd-alias-vertices", "fault", "C19", P + "polyhedron.py", '        hoomd_dict["vertices"] = self.vertices.copy()\n', "", rule="HOOMD-2")
+V("c19-hoomd-view-vertices", "fault", "C19", P + "polygon.py", '{"vertices": self.vertices[:, :2].copy()}', '{"vertices": self.vertices[:, :2]}', rule="HOOMD-2")
+V("c19-hoomd-collect-before-move", "fault", "C19", P + "ellipsoid.py",
+  "        self.centroid = np.array([0, 0, 0])\n        data = self.to_json([\"a\", \"b\", \"c\", \"centroid\", \"volume\", \"inertia_tensor\"])\n",
+  "        data = self.to_json([\"a\", \"b\", \"c\", \"centroid\", \"volume\", \"inertia_tensor\"])\n        self.centroid = np.array([0, 0, 0])\n", rule="HOOMD-1")
+V("c19-hoomd-extra-key", "fault", "C19", P + "sphere.py",
+  '["diameter", "centroid", "volume", "inertia_tensor"]', '["diameter", "centroid", "volume", "inertia_tensor", "surface_area"]', rule="HOOMD-3")
+V("c19-hoomd-mapping-typo", "fault", "C19", P + "utils.py", '"inertia_tensor": "moment_inertia"', '"inertia_tensor": "moment_of_inertia"', rule="HOOMD-3")
+V("c19-rw-dict-literal-order", "rewrite", "C19", P + "ellipsoid.py",
+  'return {"type": "Ellipsoid", "a": self.a, "b": self.b, "c": self.c}', 'return {"c": self.c, "a": self.a, "b": self.b, "type": "Ellipsoid"}')
